@@ -25,6 +25,9 @@ type Op struct {
 	Box  int    `json:"box"`
 	N    int    `json:"n"`    // remove: which live message; scan: cutoff selector
 	Size int    `json:"size"` // deliver: body bytes
+	// More lists further recipients of the same Deliver call: 0-2 = that mailbox,
+	// 3 = the first mailbox again under a +tag (two copies into one mailbox).
+	More []int `json:"more,omitempty"`
 }
 
 type Case struct {
@@ -38,8 +41,12 @@ var boxes = []string{"one", "two", "three"}
 
 var opGen = rapid.Custom(func(t *rapid.T) Op {
 	k := rapid.SampledFrom([]string{"deliver", "deliver", "deliver", "deliver", "deliver", "remove", "remove", "purge", "scan"}).Draw(t, "k")
-	return Op{K: k, Box: rapid.IntRange(0, 2).Draw(t, "box"), N: rapid.IntRange(0, 20).Draw(t, "n"),
+	op := Op{K: k, Box: rapid.IntRange(0, 2).Draw(t, "box"), N: rapid.IntRange(0, 20).Draw(t, "n"),
 		Size: rapid.SampledFrom([]int{1, 50, 200, 400, 700, 1200}).Draw(t, "size")}
+	if k == "deliver" && rapid.IntRange(0, 2).Draw(t, "multi") == 0 {
+		op.More = rapid.SliceOfN(rapid.IntRange(0, 3), 1, 3).Draw(t, "more")
+	}
+	return op
 })
 
 type key struct{ mailbox, id string }
@@ -49,6 +56,7 @@ type recorder struct {
 	stored  []key
 	deleted []key
 	merged  []mev // both kinds in the order the listener was called (one FIFO per listener name)
+	size    map[key]int64
 }
 
 type mev struct {
@@ -155,9 +163,10 @@ func run(c Case) *hx.Outcome {
 		return o
 	}
 	defer w.Close()
-	rec := &recorder{}
+	rec := &recorder{size: map[key]int64{}}
 	w.Host.Events.AfterMessageStored.AddListener("verif", func(m event.MessageMetadata) {
 		rec.mu.Lock()
+		rec.size[key{m.Mailbox, m.ID}] = m.Size
 		rec.stored = append(rec.stored, key{m.Mailbox, m.ID})
 		rec.merged = append(rec.merged, mev{false, key{m.Mailbox, m.ID}})
 		rec.mu.Unlock()
@@ -176,13 +185,27 @@ func run(c Case) *hx.Outcome {
 		switch op.K {
 		case "deliver":
 			rc, _ := w.Policy.NewRecipient(box + "@a.test")
+			rcpts := []*policy.Recipient{rc}
+			for _, m := range op.More {
+				name := box + "+again"
+				if m < 3 {
+					name = boxes[m]
+				}
+				r2, _ := w.Policy.NewRecipient(name + "@a.test")
+				rcpts = append(rcpts, r2)
+			}
 			before, _ := w.Store.GetMessages(box)
 			body := "Subject: e\r\n\r\n" + strings.Repeat("x", op.Size) + "\r\n"
-			if err := w.Manager.Deliver(origin, []*policy.Recipient{rc}, "Received: from h ([1.1.1.1]) by d\r\n", []byte(body)); err != nil {
+			if err := w.Manager.Deliver(origin, rcpts, "Received: from h ([1.1.1.1]) by d\r\n", []byte(body)); err != nil {
 				o.Failf(pid+":harness", "step %d: Deliver: %v", i, err)
 				return o
 			}
-			deliveries[box]++
+			for _, r := range rcpts {
+				deliveries[r.Mailbox]++
+			}
+			if len(rcpts) > 1 {
+				o.Class("delivery to several recipients")
+			}
 			after, _ := w.Store.GetMessages(box)
 			if len(after) <= len(before) {
 				evicting = true
@@ -261,7 +284,16 @@ func run(c Case) *hx.Outcome {
 			if !e.del {
 				seenStored[e.k] = true
 			} else if !seenStored[e.k] {
-				o.Failf(pid+":deleted-before-stored", "[%s cap=%d maxkb=%d] the deleted event of %v was delivered before its stored event", c.Backend, c.Cap, c.MaxKB, e.k)
+				// the recorded finding is the message larger than the whole size limit, evicted
+				// inside AddMessage; any other message announced as deleted first is not covered by it
+				k := pid + ":event-causality"
+				rec.mu.Lock()
+				sz := rec.size[e.k]
+				rec.mu.Unlock()
+				if c.Backend == "mem" && c.MaxKB > 0 && sz > int64(c.MaxKB)*1024 {
+					k = pid + ":deleted-before-stored"
+				}
+				o.Failf(k, "[%s cap=%d maxkb=%d] the deleted event of %v (%d bytes) was delivered before its stored event", c.Backend, c.Cap, c.MaxKB, e.k, sz)
 				break
 			}
 		}
